@@ -269,8 +269,17 @@ def flagged(rep, cfg):
             mask = mk("call", "ark_serialize::Flags::u8_bitmask", mk("param", "flags"))
             fits = Tm.eq(lit(N8), size)
             ws = [(pc, args[0]) for pc, kind, args, site in out.effects if kind == "write_all"]
-            in_last = [w for pc, w in ws if fits in pc]
-            extra = [w for pc, w in ws if Tm.not_(fits) in pc]
+            def writes_when(truth):
+                # the sequence of writes in the case fits == truth, whatever `if` structure they sit in
+                seq = []
+                for pc, w in ws:
+                    conds = [Tm.assume(c_, fits, truth) for c_ in pc]
+                    if any(c_ is FALSE for c_ in conds):
+                        continue
+                    seq.append(Tm.assume(w, fits, truth))
+                return seq
+            in_last = writes_when(True)
+            extra = writes_when(False)
             ok_fit = in_last == [Tm.store(cb, lit(N8 - 1), Tm.intop("bor", Tm.index(cb, lit(N8 - 1)), mask))]
             ok_extra = extra == [cb, mk("array", mask)]
             rej = [pc for pc, v in out.flows if v is variant("Err", variant("NotEnoughSpace"))]
@@ -281,7 +290,7 @@ def flagged(rep, cfg):
         p = find1(rep, cfg, "deserialize_with_flags(%s)" % f, r"^fields::%s::arkworks::<impl ark_serialize::CanonicalDeserializeWithFlags for .*>::deserialize_with_flags$" % f)
         if p:
             out = cfg.run(p, mode="glue")
-            oks = [(pc, v.args[1]) for pc, v in out.flows if v.op == "variant" and v.args[0] == "Ok"]
+            oks = [(pc, v.args[1]) for pc, v in C.expand_flows(out.flows) if v.op == "variant" and v.args[0] == "Ok"]
             ok = False
             why = "no unique success flow"
             if len(oks) == 1 and oks[0][1].op == "tuple" and len(oks[0][1].args) == 2:
